@@ -257,7 +257,32 @@ def blend_case(rng) -> Dict[str, Any]:
     return gen_case(rng)
 
 
+def core_cases() -> List[Dict[str, Any]]:
+    """Seed-independent core: contracts on which an earlier tree failed."""
+    import json
+
+    out = []
+    p = os.path.join(os.path.dirname(os.path.abspath(__file__)), "c10_core.json")
+    try:
+        with open(p) as f:
+            data = json.load(f)
+        out = data if isinstance(data, list) else [data]
+    except Exception:  # noqa: BLE001
+        pass
+    out.append({"kind": "core", "contract": {"in": ["e"], "out": ["o1", "E1"], "a": [], "g": [
+        {"c": {"o1": 0.3333, "e": 250000.0}, "k": -0.0001},
+        {"c": {"o1": -1000000.0, "E1": -0.3333, "e": 1000000.0}, "k": 0.0101}]}})
+    out.append({"kind": "core", "contract": {"in": ["i1"], "out": ["z9"], "a": [], "g": [
+        {"c": {"z9": 0.5, "i1": 0.001}, "k": 0.5}, {"c": {"i1": 0.3333, "z9": 4567.0}, "k": -0.0101},
+        {"c": {"i1": -1000000.0, "z9": 0.0001}, "k": 78.9}]}})
+    return out
+
+
 def run(ctx: Ctx) -> None:
+    for j, case in enumerate(core_cases()):
+        if ctx.mine(j):
+            run_case(ctx, dict(case))
+            ctx.count("core_cases")
     k = 0
     for entry in corpus.load():
         for c in entry["contracts"]:
